@@ -122,6 +122,7 @@ struct K_p { static constexpr const char* n = "int*"; static uint64_t off(int se
 struct K_fn { static constexpr const char* n = "fnptr"; };
 struct K_ca { static constexpr const char* n = "char[5]"; static char el(int sel, int i) { return sel == 0 ? 0 : (char)(sel * 40 + i); } };
 struct K_la { static constexpr const char* n = "long[3]"; static long el(int sel, int i) { return sel == 0 ? 0 : sel == 1 ? -(long)(i + 1) : 2147483647L - i; } };
+struct K_l2 { static constexpr const char* n = "long[2][3]"; static long el(int sel, int i, int j) { return sel == 0 ? 0 : sel == 1 ? -(long)(10 * i + j + 1) : 2147483647L - (3 * i + j); } };
 struct K_pa { static constexpr const char* n = "int*[2]"; static uint64_t off(int sel, int i) { return sel == 0 ? 0 : (uint64_t)(0x100 * sel + 8 * i); } };
 struct K_ns { static constexpr const char* n = "nested"; };
 
@@ -140,6 +141,7 @@ static void setf(F& f, int sel)
   else if constexpr (std::is_same_v<K, K_fn>) { if (sel) f = g_sb->get_sandbox_function_address(gfn); else f = nullptr; }
   else if constexpr (std::is_same_v<K, K_ca>) { for (int i = 0; i < 5; i++) f[i] = K_ca::el(sel, i); }
   else if constexpr (std::is_same_v<K, K_la>) { for (int i = 0; i < 3; i++) f[i] = K_la::el(sel, i); }
+  else if constexpr (std::is_same_v<K, K_l2>) { for (int i = 0; i < 2; i++) for (int j = 0; j < 3; j++) f[i][j] = K_l2::el(sel, i, j); }
   else if constexpr (std::is_same_v<K, K_pa>) { for (int i = 0; i < 2; i++) { if (K_pa::off(sel, i)) f[i].assign_raw_pointer(*g_sb, reinterpret_cast<int*>(g_base + K_pa::off(sel, i))); else f[i] = nullptr; } }
   else if constexpr (std::is_same_v<K, K_ns>) { f.x = K_c::app(sel); f.y = K_l::app(sel); }
   else f = K::app(sel);
@@ -152,6 +154,7 @@ static void setg(F& f, int sel)
   else if constexpr (std::is_same_v<K, K_fn>) f = sel ? (g_ptr_t)fnrep() : 0;
   else if constexpr (std::is_same_v<K, K_ca>) { for (int i = 0; i < 5; i++) f[i] = K_ca::el(sel, i); }
   else if constexpr (std::is_same_v<K, K_la>) { for (int i = 0; i < 3; i++) f[i] = (g_long_t)K_la::el(sel, i); }
+  else if constexpr (std::is_same_v<K, K_l2>) { for (int i = 0; i < 2; i++) for (int j = 0; j < 3; j++) f[i][j] = (g_long_t)K_l2::el(sel, i, j); }
   else if constexpr (std::is_same_v<K, K_pa>) { for (int i = 0; i < 2; i++) f[i] = (g_ptr_t)K_pa::off(sel, i); }
   else if constexpr (std::is_same_v<K, K_ns>) { f.x = K_c::guest(sel); f.y = K_l::guest(sel); }
   else { auto v = K::guest(sel); memcpy(const_cast<std::remove_const_t<F>*>(&f), &v, sizeof v); }
@@ -174,6 +177,7 @@ static bool chkt(F& f, int sel)
   else if constexpr (std::is_same_v<K, K_fn>) return (const void*)f.UNSAFE_unverified() == (sel ? (const void*)&guest_gfn : nullptr);
   else if constexpr (std::is_same_v<K, K_ca>) { for (int i = 0; i < 5; i++) if (f[i].UNSAFE_unverified() != K_ca::el(sel, i)) return false; return true; }
   else if constexpr (std::is_same_v<K, K_la>) { for (int i = 0; i < 3; i++) if (f[i].UNSAFE_unverified() != K_la::el(sel, i)) return false; return true; }
+  else if constexpr (std::is_same_v<K, K_l2>) { for (int i = 0; i < 2; i++) for (int j = 0; j < 3; j++) if (f[i][j].UNSAFE_unverified() != K_l2::el(sel, i, j)) return false; return true; }
   else if constexpr (std::is_same_v<K, K_pa>) { for (int i = 0; i < 2; i++) if (reinterpret_cast<uintptr_t>(f[i].UNSAFE_unverified()) != (K_pa::off(sel, i) ? g_base + K_pa::off(sel, i) : 0)) return false; return true; }
   else if constexpr (std::is_same_v<K, K_ns>) return f.x.UNSAFE_unverified() == K_c::app(sel) && f.y.UNSAFE_unverified() == K_l::app(sel);
   else { auto got = f.UNSAFE_unverified(); auto want = K::app(sel); return eqb<std::remove_const_t<decltype(want)>>(got, want); }
@@ -183,6 +187,7 @@ template<class K, class FS, class FG>
 static void s2g(const FS& s, FG& g)
 {
   if constexpr (std::is_same_v<K, K_ns>) { g.x = s.x; g.y = s.y; }
+  else if constexpr (std::is_same_v<K, K_l2>) { for (size_t i = 0; i < 2; i++) for (size_t j = 0; j < 3; j++) g[i][j] = s[i][j]; }
   else if constexpr (std::is_array_v<FG>) { for (size_t i = 0; i < std::extent_v<FG>; i++) g[i] = s[i]; }
   else { auto v = s; memcpy(const_cast<std::remove_const_t<FG>*>(&g), &v, sizeof(FG)); static_assert(sizeof(FS) == sizeof(FG) || std::is_array_v<FG>, "guest field width"); }
 }
@@ -190,6 +195,7 @@ template<class K, class FS, class FG>
 static void g2s(FS& s, const FG& g)
 {
   if constexpr (std::is_same_v<K, K_ns>) { s.x = g.x; s.y = g.y; }
+  else if constexpr (std::is_same_v<K, K_l2>) { for (size_t i = 0; i < 2; i++) for (size_t j = 0; j < 3; j++) s[i][j] = g[i][j]; }
   else if constexpr (std::is_array_v<FG>) { for (size_t i = 0; i < std::extent_v<FG>; i++) s[i] = g[i]; }
   else memcpy(const_cast<std::remove_const_t<FS>*>(&s), &g, sizeof(FG));
 }
